@@ -1,6 +1,4 @@
 from contracts import dispatcher as D, records as R
 def build(P):
     D.externals(P.reg)
-    D.launch_externals(P.reg)
-    R.abstract_arn(P.reg)
-    P.verify(D.ET + "asl_service_rpcmessage", D.rpcmessage_contract(), timeout=30)
+    P.verify(D.TD + "TaskDispatcher.branch_has_terminated", D.td_branch_has_terminated_contract(), timeout=30)
